@@ -370,6 +370,14 @@ func (c *celValidator) convertOperand(parent string, arg *exprpb.Expr, fieldName
 		return converted
 	}
 
+	// %g prints the double literal 2.0 as 2. As an operand of an arithmetic operator
+	// that would be an integer constant in Go: 1.0 / 2.0 must not become 1 / 2 == 0.
+	if constant := arg.GetConstExpr(); constant != nil && parentPrec > goPrecedence("_==_") {
+		if _, ok := constant.ConstantKind.(*exprpb.Constant_DoubleValue); ok && !strings.ContainsAny(converted, ".eIN") {
+			return converted + ".0"
+		}
+	}
+
 	call := arg.GetCallExpr()
 	if call == nil || call.Target != nil {
 		return converted
